@@ -65,3 +65,22 @@ Theorem C19_T3b_sites :
 Proof. exact throttle_sites_shape. Qed.
 Theorem C19_T3b_one_cell_per_code : NoDup site_codes.
 Proof. exact one_cell_per_code. Qed.
+
+(* T2b: the chain of checks of the CURRENT source (extracted by kt.py from Decoder::processMsopPkt / processDifopPkt): the overflow
+   guard first (it alone does not reject), missing calibration, the length check BEFORE the identifier check; and the conditions
+   are the ones the model's gate was written from (identifier compared over its own length, ...) *)
+From Coq Require Import String.
+From RS Require Import Proofs.Gates.
+Theorem C19_T2b_msop_gate_order : gate_skeleton Decoder_processMsopPkt_gates =
+  [(["ERRCODE_CLOUDOVERFLOW"%string], false); (["ERRCODE_NODIFOPRECV"%string], true); (["ERRCODE_WRONGMSOPLEN"%string], true); (["ERRCODE_WRONGMSOPID"%string], true)].
+Proof. exact msop_gate_order. Qed.
+Theorem C19_T2b_difop_gate_order : gate_skeleton Decoder_processDifopPkt_gates =
+  [(["ERRCODE_WRONGDIFOPLEN"%string], true); (["ERRCODE_WRONGDIFOPID"%string], true)].
+Proof. exact difop_gate_order. Qed.
+Theorem C19_T2b_gate_conditions :
+  map (fun r => fst (fst r)) Decoder_processMsopPkt_gates =
+  ["this->point_cloud_ && (this->point_cloud_->points.size() > CLOUD_POINT_MAX)"%string; "param_.wait_for_difop && !angles_ready_"%string;
+   "size != this->const_param_.MSOP_LEN"%string; "memcmp(pkt, this->const_param_.MSOP_ID, this->const_param_.MSOP_ID_LEN) != 0"%string] /\
+  map (fun r => fst (fst r)) Decoder_processDifopPkt_gates =
+  ["size != this->const_param_.DIFOP_LEN"%string; "memcmp(pkt, this->const_param_.DIFOP_ID, const_param_.DIFOP_ID_LEN) != 0"%string].
+Proof. exact (conj msop_gate_conditions difop_gate_conditions). Qed.
